@@ -2,18 +2,14 @@
    polynomials, with every public mutation of dimod.ConstrainedQuadraticModel
    as a pure function  step : scqm -> op -> scqm * exc.
    Labels are small nats (the harness numbers the Python labels).
-   The flag [faithful] selects, for the three places where the pinned code
-   deviates from its documented behaviour, the behaviour of the code
-   (faithful = true) or the documented one (faithful = false):
-     - fix_variable of a BINARY variable to a non-zero value is documented to
-       unmark every marked-discrete constraint containing it; the code unmarks
-       a temporary copy (no effect);
-     - flip_variable is documented to end the discrete status of constraints
-       containing the variable; the code only unmarks those that are still
-       one-hot after the flip;
-     - remove_variable is documented to raise ValueError for a variable used
-       in a discrete constraint; the code raises AttributeError as soon as any
-       discrete constraint exists.
+   The discrete-mark rules are those of the code after the repairs 8da040e,
+   e1db866, 2289545:
+     - fix_variable of a BINARY variable to a non-zero value unmarks every
+       marked-discrete constraint containing it (whether or not it is one-hot);
+     - flip_variable unmarks the constraints that were discrete (marked AND
+       one-hot) and contained the variable BEFORE the flip;
+     - remove_variable raises ValueError for a variable used in a discrete
+       constraint.
    Executable; no proofs in this file. *)
 From Coq Require Import List ZArith QArith Qcanon Bool Arith.
 From Dimod Require Import Base.Util Model.Poly.
@@ -144,7 +140,6 @@ Inductive op :=
 | VRemoveInter (t : target) (u v : label)
 | VSetOffset (t : target) (b : Qc)
 | MarkDiscrete (l : nat) (m : bool)
-| Fails (e : exc)        (* a call the pinned code rejects before touching the model *)
 | Nop.
 
 Definition Qc_ltb (a b : Qc) : bool := negb (Qle_bool b a).
@@ -227,11 +222,16 @@ Definition set_weight (l : nat) (w : option Qc) (pen : penalty) (q : scqm) : scq
       else (upd_con l (fun k => con_set_soft k (match w with Some x => Some (x, pen) | None => None end)) q, XNone)
   end.
 
-Definition append_con (q : scqm) (k : scon) (soft : option (Qc * penalty)) : scqm * exc :=
+(* the weight and penalty are validated before the model is touched (q0: the model as it was) *)
+Definition append_con (q0 q : scqm) (k : scon) (soft : option (Qc * penalty)) : scqm * exc :=
   let q1 := set_cons q (q_cons q ++ [k]) in
   match soft with
   | None => (q1, XNone)
-  | Some (w, pen) => set_weight (k_lbl k) (Some w) pen q1
+  | Some (w, pen) =>
+      if Qc_leb w 0 then (q0, XValue)
+      else if penalty_eqb pen PQuad && negb (forallb (fun v => is_bin_or_spin (vt_of (q_vars q) v)) (pvars (k_p k)))
+      then (q0, XValue)
+      else set_weight (k_lbl k) (Some w) pen q1
   end.
 
 Definition add_con_model (d : mdesc) (s : sense) (rhs : Qc) (l : nat) (soft : option (Qc * penalty)) (q : scqm) : scqm * exc :=
@@ -239,7 +239,7 @@ Definition add_con_model (d : mdesc) (s : sense) (rhs : Qc) (l : nat) (soft : op
   else if negb (merge_ok (q_vars q) (d_vars d)) then (q, XValue)
   else
     let vs := merge_vars (q_vars q) (d_vars d) in
-    append_con (set_vars q vs) (mkCon l (desc_poly (vt_of vs) d) s rhs None false) soft.
+    append_con q (set_vars q vs) (mkCon l (desc_poly (vt_of vs) d) s rhs None false) soft.
 
 Definition remove_var_raw (l : label) (q : scqm) : scqm :=
   set_vars (map_exprs (remove_variable l) q) (del_var l (q_vars q)).
@@ -248,30 +248,26 @@ Definition any_discrete (q : scqm) : bool := existsb (is_discrete (q_vars q)) (q
 Definition in_discrete (l : label) (q : scqm) : bool :=
   existsb (fun k => is_discrete (q_vars q) k && pmentions (k_p k) l) (q_cons q).
 
-Definition remove_variable_py (faithful : bool) (l : label) (q : scqm) : scqm * exc :=
-  if faithful then
-    if any_discrete q then (q, XAttr)
-    else if has_var l (q_vars q) then (remove_var_raw l q, XNone) else (q, XValue)
-  else
-    if in_discrete l q then (q, XValue)
-    else if has_var l (q_vars q) then (remove_var_raw l q, XNone) else (q, XValue).
+Definition remove_variable_py (l : label) (q : scqm) : scqm * exc :=
+  if in_discrete l q then (q, XValue)
+  else if has_var l (q_vars q) then (remove_var_raw l q, XNone) else (q, XValue).
 
-Definition fix_one (faithful : bool) (l : label) (a : Qc) (q : scqm) : scqm * exc :=
+Definition fix_one (l : label) (a : Qc) (q : scqm) : scqm * exc :=
   match find_var l (q_vars q) with
   | None => (q, XValue)
   | Some x =>
       let q1 :=
-        if negb faithful && is_binary (v_vt x) && negb (Qc_eqb a 0)
+        if is_binary (v_vt x) && negb (Qc_eqb a 0)
         then set_cons q (map (fun k => if k_mark k && pmentions (k_p k) l then con_set_mark k false else k) (q_cons q))
         else q in
       (set_vars (map_exprs (fix_variable l a) q1) (del_var l (q_vars q1)), XNone)
   end.
 
-Fixpoint fix_many (faithful : bool) (fs : list (label * Qc)) (q : scqm) : scqm * exc :=
+Fixpoint fix_many (fs : list (label * Qc)) (q : scqm) : scqm * exc :=
   match fs with
   | [] => (q, XNone)
-  | (l, a) :: r => match fix_one faithful l a q with
-                   | (q', XNone) => fix_many faithful r q'
+  | (l, a) :: r => match fix_one l a q with
+                   | (q', XNone) => fix_many r q'
                    | (q', e) => (q', e)
                    end
   end.
@@ -284,16 +280,19 @@ Definition fix_copy (fs : list (label * Qc)) (q : scqm) : scqm * exc :=
     let vs := filter (fun x => negb (memb (v_lbl x) (map fst fs))) (q_vars q) in
     (mkCqm vs (q_obj q1) (map (fun k => con_set_mark k (k_mark k && is_onehot vs k)) (q_cons q1)), XNone).
 
-Definition flip (faithful : bool) (l : label) (q : scqm) : scqm * exc :=
+Definition flip (l : label) (q : scqm) : scqm * exc :=
   match find_var l (q_vars q) with
   | None => (q, XValue)
   | Some x =>
       match v_vt x with
       | SPIN | BINARY =>
           let c := match v_vt x with BINARY => 1 | _ => 0 end in
-          let q1 := map_exprs (substitute l (- (1)) c) q in
-          let drop k := k_mark k && pmentions (k_p k) l && (negb faithful || is_onehot (q_vars q1) k) in
-          (set_cons q1 (map (fun k => if drop k then con_set_mark k false else k) (q_cons q1)), XNone)
+          (* the affected discrete constraints are determined BEFORE the flip *)
+          let f := substitute l (- (1)) c in
+          let drop k := is_discrete (q_vars q) k && pmentions (k_p k) l in
+          (mkCqm (q_vars q) (f (q_obj q))
+                 (map (fun k => let k1 := con_set_p k (f (k_p k)) in if drop k then con_set_mark k1 false else k1)
+                      (q_cons q)), XNone)
       | _ => (q, XValue)
       end
   end.
@@ -374,7 +373,7 @@ Definition add_discrete_model (d : mdesc) (l : nat) (chk : bool) (q : scqm) : sc
     | r => r
     end.
 
-Definition remove_con (faithful : bool) (l : nat) (cascade : bool) (q : scqm) : scqm * exc :=
+Definition remove_con (l : nat) (cascade : bool) (q : scqm) : scqm * exc :=
   match find_con l (q_cons q) with
   | None => (q, if cascade then XKey else XValue)
   | Some k =>
@@ -386,8 +385,7 @@ Definition remove_con (faithful : bool) (l : nat) (cascade : bool) (q : scqm) : 
                                      && negb (existsb (fun k' => pmentions (k_p k') v) rest)) (pvars (k_p k)) in
         match gone with
         | [] => (q1, XNone)
-        | _ => if faithful && any_discrete q1 then (q1, XAttr)
-               else (fold_left (fun acc v => remove_var_raw v acc) gone q1, XNone)
+        | _ => (fold_left (fun acc v => remove_var_raw v acc) gone q1, XNone)
         end
   end.
 
@@ -415,31 +413,18 @@ Definition on_target (t : target) (f : poly -> poly) (q : scqm) : scqm * exc :=
 Definition target_ok (t : target) (q : scqm) : bool :=
   match t with TObj => true | TCon l => has_con l (q_cons q) end.
 
-(* cyexpression.add_quadratic formats its ValueError message with
-   self.variables[ui] - the EXPRESSION's variables at the MODEL index - and so
-   raises IndexError instead when that index is past the expression's size *)
-Fixpoint pos_of (l : label) (vs : list vinfo) : nat :=
-  match vs with [] => 0%nat | x :: r => if (v_lbl x =? l)%nat then 0%nat else S (pos_of l r) end.
-Definition target_poly (t : target) (q : scqm) : poly :=
-  match t with
-  | TObj => q_obj q
-  | TCon l => match find_con l (q_cons q) with Some k => k_p k | None => pzero end
-  end.
-Definition view_msg_exc (faithful : bool) (q : scqm) (t : target) (u : label) : exc :=
-  if faithful && (length (pvars (target_poly t q)) <=? pos_of u (q_vars q))%nat then XOther else XValue.
-
 Definition set_offset (b : Qc) (p : poly) : poly := mkPoly b (p_lin p) (p_quad p).
 
-Definition step (faithful : bool) (q : scqm) (o : op) : scqm * exc :=
+Definition step (q : scqm) (o : op) : scqm * exc :=
   let vs := q_vars q in
   match o with
   | AddVar vt l lb ub => add_variables vt lb ub [l] q
   | AddVars vt ls lb ub => add_variables vt lb ub ls q
-  | RemoveVar l => remove_variable_py faithful l q
-  | FixVar l a => fix_one faithful l a q
-  | FixVars fs true => fix_many faithful fs q
+  | RemoveVar l => remove_variable_py l q
+  | FixVar l a => fix_one l a q
+  | FixVars fs true => fix_many fs q
   | FixVars fs false => fix_copy fs q
-  | Flip l => flip faithful l q
+  | Flip l => flip l q
   | ChangeVt vt l => change_vartype vt l q
   | SpinToBinary => (spin_to_binary_all q, XNone)
   | RelabelVars mp => relabel_vars mp q
@@ -453,11 +438,11 @@ Definition step (faithful : bool) (q : scqm) (o : op) : scqm * exc :=
   | AddConIter ts s rhs l soft =>
       if has_con l (q_cons q) then (q, XValue)
       else let '(p, bad) := add_terms vs ts pzero in
-           if bad then (q, XValue) else append_con q (mkCon l p s rhs None false) soft
+           if bad then (q, XValue) else append_con q q (mkCon l p s rhs None false) soft
   | AddDiscreteIter ls l chk => add_discrete_iter ls l chk q
   | AddDiscreteModel d l chk => add_discrete_model d l chk q
   | SetWeight l w pen => set_weight l w pen q
-  | RemoveCon l cascade => remove_con faithful l cascade q
+  | RemoveCon l cascade => remove_con l cascade q
   | RelabelCons mp => relabel_cons mp q
   | SetLb l b => set_lb l b q
   | SetUb l b => set_ub l b q
@@ -467,9 +452,8 @@ Definition step (faithful : bool) (q : scqm) (o : op) : scqm * exc :=
   | VAddQuadratic t u v b =>
       if negb (target_ok t q) then (q, XKey)
       else if negb (has_var u vs && has_var v vs) then (q, XValue)
-      else if (u =? v)%nat && is_bin_or_spin (vt_of vs u) then (q, view_msg_exc faithful q t u)
-      else if is_real (vt_of vs u) then (q, view_msg_exc faithful q t u)
-      else if is_real (vt_of vs v) then (q, view_msg_exc faithful q t v)
+      else if (u =? v)%nat && is_bin_or_spin (vt_of vs u) then (q, XValue)
+      else if is_real (vt_of vs u) || is_real (vt_of vs v) then (q, XValue)
       else on_target t (s_addq (vt_of vs) u v b) q
   | VSetLinear t v b =>
       if negb (target_ok t q) then (q, XKey)
@@ -483,9 +467,8 @@ Definition step (faithful : bool) (q : scqm) (o : op) : scqm * exc :=
   | VSetOffset t b => on_target t (set_offset b) q
   | MarkDiscrete l m =>
       if has_con l (q_cons q) then (upd_con l (fun k => con_set_mark k m) q, XNone) else (q, XKey)
-  | Fails e => (q, e)
   | Nop => (q, XNone)
   end.
 
-Definition run (faithful : bool) (ops : list op) (q : scqm) : scqm :=
-  fold_left (fun s o => fst (step faithful s o)) ops q.
+Definition run (ops : list op) (q : scqm) : scqm :=
+  fold_left (fun s o => fst (step s o)) ops q.
